@@ -105,6 +105,10 @@ pub struct BuildOpts {
     pub dense_depth: Option<usize>,
     pub byte_classes: bool,
     pub prefilter: bool,
+    /// (automaton surfaces only) issue the stream operations through the
+    /// `Automaton for &A` forwarding impl instead of `A` itself
+    #[serde(default)]
+    pub via_ref: bool,
 }
 
 impl BuildOpts {
@@ -118,6 +122,7 @@ impl BuildOpts {
             dense_depth: None,
             byte_classes: true,
             prefilter: true,
+            via_ref: false,
         }
     }
 }
